@@ -542,7 +542,7 @@ FUNCTIONS += [
     dict(
         name='ring_unlink', cxx='list_elem<T>::unlink', file=MOCK, module='RingUnlink', base='Ring',
         header=r'\n\s*void\s+unlink\(\)\s*noexcept',
-        lean_sig='(this : Ring.Ptr) (h0 : Ring.Heap) : Ring.Heap',
+        lean_sig='(this : Ring.Ptr) (h0 : Ring.Heap Ring.Ptr) : Ring.Heap Ring.Ptr',
         prologue=['let mut h := h0'], epilogue='return h', void_result='h',
         vars={'this': 'this'},
         stmt_ignore=RING_IGNORE, expr_rules=RING_EXPR, stmt_rules=RING_STMT,
@@ -551,7 +551,7 @@ FUNCTIONS += [
         name='ring_move_assign', cxx='list_elem<T>::operator=(list_elem&&)', file=MOCK, module='RingMoveAssign', base='Ring',
         imports=['RingUnlink'],
         header=r'operator=\(\s*list_elem\s*&&\s*r\)\s*noexcept',
-        lean_sig='(this r : Ring.Ptr) (h0 : Ring.Heap) : Ring.Heap',
+        lean_sig='(this r : Ring.Ptr) (h0 : Ring.Heap Ring.Ptr) : Ring.Heap Ring.Ptr',
         prologue=['let mut h := h0'], epilogue='return h', void_result='h',
         vars={'this': 'this', 'r': 'r'},
         stmt_ignore=RING_IGNORE,
@@ -563,7 +563,7 @@ FUNCTIONS += [
         name='ring_push_front', cxx='list<T, Disposer>::push_front', file=MOCK, module='RingPushFront', base='Ring',
         header=r'list<T, Disposer>::push_front\(\s*T\s*\*\s*t\)\s*noexcept\s*->\s*iterator',
         pre=[(r'iterator\{(\w+)\}', r'\1')],
-        lean_sig='(this t : Ring.Ptr) (h0 : Ring.Heap) : Ring.Heap',
+        lean_sig='(this t : Ring.Ptr) (h0 : Ring.Heap Ring.Ptr) : Ring.Heap Ring.Ptr',
         prologue=['let mut h := h0'], epilogue='return h', void_result='h',
         vars={'this': 'this', 't': 't'},
         stmt_ignore=RING_IGNORE, expr_rules=RING_EXPR, stmt_rules=RING_STMT,
@@ -573,7 +573,7 @@ FUNCTIONS += [
         name='ring_push_back', cxx='list<T, Disposer>::push_back', file=MOCK, module='RingPushBack', base='Ring',
         header=r'list<T, Disposer>::push_back\(\s*T\s*\*\s*t\)\s*noexcept\s*->\s*iterator',
         pre=[(r'iterator\{(\w+)\}', r'\1')],
-        lean_sig='(this t : Ring.Ptr) (h0 : Ring.Heap) : Ring.Heap',
+        lean_sig='(this t : Ring.Ptr) (h0 : Ring.Heap Ring.Ptr) : Ring.Heap Ring.Ptr',
         prologue=['let mut h := h0'], epilogue='return h', void_result='h',
         vars={'this': 'this', 't': 't'},
         stmt_ignore=RING_IGNORE, expr_rules=RING_EXPR, stmt_rules=RING_STMT,
@@ -583,20 +583,20 @@ FUNCTIONS += [
         name='ring_begin', cxx='list<T, Disposer>::begin', file=MOCK, module='RingBegin', base='Ring',
         header=r'list<T, Disposer>::begin\(\)\s*const\s*noexcept\s*->\s*iterator',
         pre=[(r'iterator\{(\w+)\}', r'\1')],
-        lean_sig='(this : Ring.Ptr) (h : Ring.Heap) : Ring.Ptr',
+        lean_sig='(this : Ring.Ptr) (h : Ring.Heap Ring.Ptr) : Ring.Ptr',
         vars={'this': 'this'}, expr_rules=RING_EXPR,
     ),
     dict(
         name='ring_end', cxx='list<T, Disposer>::end', file=MOCK, module='RingEnd', base='Ring',
         header=r'list<T, Disposer>::end\(\)\s*const\s*noexcept\s*->\s*iterator',
         pre=[(r'iterator\{(\w+)\}', r'\1')],
-        lean_sig='(this : Ring.Ptr) (h : Ring.Heap) : Ring.Ptr',
+        lean_sig='(this : Ring.Ptr) (h : Ring.Heap Ring.Ptr) : Ring.Ptr',
         vars={'this': 'this'}, expr_rules=RING_EXPR,
     ),
     dict(
         name='ring_iter_incr', cxx='list<T, Disposer>::iterator::operator++', file=MOCK, module='RingIterIncr', base='Ring',
         header=r'iterator&\s*operator\+\+\(\)\s*noexcept',
-        lean_sig='(p0 : Ring.Ptr) (h : Ring.Heap) : Ring.Ptr',
+        lean_sig='(p0 : Ring.Ptr) (h : Ring.Heap Ring.Ptr) : Ring.Ptr',
         prologue=['let mut p := p0'], epilogue='return p',
         vars={'p': 'p'}, expr_rules=RING_EXPR,
         ret_rules=[(r'^\*this$', 'p')],
@@ -604,7 +604,7 @@ FUNCTIONS += [
     dict(
         name='ring_is_linked', cxx='list_elem<T>::is_linked', file=MOCK, module='RingIsLinked', base='Ring',
         header=r'\n\s*bool\s+is_linked\(\)\s*const\s*noexcept',
-        lean_sig='(this : Ring.Ptr) (h : Ring.Heap) : Bool',
+        lean_sig='(this : Ring.Ptr) (h : Ring.Heap Ring.Ptr) : Bool',
         vars={'this': 'this'}, stmt_ignore=RING_IGNORE,
         expr_rules=[(r'^next != this$', '((h.next this) != this)')] + RING_EXPR,
     ),
@@ -612,7 +612,7 @@ FUNCTIONS += [
         name='ring_elem_dtor', cxx='list_elem<T>::~list_elem', file=MOCK, module='RingElemDtor', base='Ring',
         imports=['RingUnlink'],
         header=r'virtual\s+~list_elem\(\)',
-        lean_sig='(this : Ring.Ptr) (h0 : Ring.Heap) : Ring.Heap',
+        lean_sig='(this : Ring.Ptr) (h0 : Ring.Heap Ring.Ptr) : Ring.Heap Ring.Ptr',
         prologue=['let mut h := h0'], epilogue='return h', void_result='h',
         vars={'this': 'this'},
         stmt_rules=[(r'^unlink\(\)$', 'h := ring_unlink this h')],
@@ -621,7 +621,7 @@ FUNCTIONS += [
         name='ring_list_dtor', cxx='list<T, Disposer>::~list', file=MOCK, module='RingListDtor', base='Ring',
         imports=['RingUnlink', 'RingBegin', 'RingEnd', 'RingIterIncr'],
         header=r'list<T, Disposer>::~list\(\)',
-        lean_sig='(this : Ring.Ptr) (fuel : Nat) (h0 : Ring.Heap) : Ring.Heap',
+        lean_sig='(this : Ring.Ptr) (fuel : Nat) (h0 : Ring.Heap Ring.Ptr) : Ring.Heap Ring.Ptr',
         while_fuel='fuel',
         prologue=['let mut h := h0'], epilogue='return h', void_result='h',
         vars={'this': 'this'},
